@@ -10,11 +10,12 @@
       unique.  So the declaration order is a function of the clause syntax: there is no place where
       a set's iteration order could enter.
    2. compile_text_gen: the same pipeline with two extra parameters that the real code does not
-      have - `ord`, a function applied to the de-duplicated variable list (the model of
+      have - `ord` (and `gord`, see below), a function applied to the de-duplicated variable list (the model of
       list(set(...)) of the pinned tree: some permutation chosen by the hash seed), and the initial
       values (a, k) of the two counters (anonymousVariableCounter, cut_if_counter).
         compile_text_gen_id   with ord = identity and counters (0,0) it IS compile_text
         set_order_refuted     two permutations give different texts for one source
+        group_order_refuted   likewise for the iteration order of the predicate dictionary (`gord`)
         shared_counters_refuted  with counters carried over from a previous compilation (as if they
                               were module-level / class-level), compiling the same source twice gives
                               two different texts - for each of the two counters separately
@@ -122,6 +123,9 @@ Section Gen.
   Variable printable : N -> bool.
   (* what is done to a de-duplicated variable list before it is used; the real code: nothing *)
   Variable ord : list str -> list str.
+  (* in which order the dictionary (name, arity) -> clauses built by visitProgram is iterated by
+     compile_program; the real code: insertion order (Python dicts), i.e. nothing is done *)
+  Variable gord : list (key * list clause) -> list (key * list clause).
 
   Definition compile_clause_g (c : clause) (cnt : nat) : option (list stmt * nat) :=
     let pos := head_args_by_pos (c_args c) in
@@ -169,7 +173,7 @@ Section Gen.
     match (do 'ts <- lex s; do 'cst <- parse ts; v_program cst (fst st)) with
     | None => (CRejectFront, st)
     | Some (p, a') =>
-        match compile_groups_g (group_program p) (snd st) with
+        match compile_groups_g (gord (group_program p)) (snd st) with
         | None => (CRejectFront, (a', snd st))
         | Some (ir, k') => (finish printable ir, (a', k'))
         end
@@ -193,6 +197,7 @@ Section Gen.
 End Gen.
 
 Definition keep : list str -> list str := fun l => l.
+Definition gkeep : list (key * list clause) -> list (key * list clause) := fun l => l.
 
 Lemma compile_clause_g_id c cnt : compile_clause_g keep c cnt = compile_clause c cnt.
 Proof. reflexivity. Qed.
@@ -213,9 +218,9 @@ Qed.
 
 (* with nothing done to the variable lists and both counters starting at 0 the generalised
    pipeline is compile_text: the theorems below are about the real model *)
-Theorem compile_text_g_id printable s : fst (compile_text_g printable keep (0, 0) s) = compile_text printable s.
+Theorem compile_text_g_id printable s : fst (compile_text_g printable keep gkeep (0, 0) s) = compile_text printable s.
 Proof.
-  unfold compile_text_g, compile_text, front, compile_ast, compile_program. cbn [fst snd].
+  unfold compile_text_g, compile_text, front, compile_ast, compile_program, gkeep. cbn [fst snd].
   destruct (lex s) as [ts|]; [|reflexivity]. destruct (parse ts) as [cst|]; [|reflexivity].
   destruct (v_program cst 0) as [[p a']|]; [|reflexivity].
   rewrite compile_groups_g_id. destruct (compile_groups (group_program p) 0) as [[ir k']|]; reflexivity.
@@ -223,16 +228,16 @@ Qed.
 
 (* C18 "after any other compilations in the same process" *)
 Theorem counters_per_call printable : forall before after src,
-  session printable keep (before ++ src :: after)
+  session printable keep gkeep (before ++ src :: after)
   = map (compile_text printable) before ++ compile_text printable src :: map (compile_text printable) after.
 Proof.
-  assert (E : forall l, session printable keep l = map (compile_text printable) l).
+  assert (E : forall l, session printable keep gkeep l = map (compile_text printable) l).
   { induction l as [|s r IH]; [reflexivity|]. cbn [session map]. rewrite compile_text_g_id, IH. reflexivity. }
   intros before after src. rewrite E, map_app. reflexivity.
 Qed.
 
 Corollary counters_per_call_nth printable before after src :
-  nth_error (session printable keep (before ++ src :: after)) (length before) = Some (compile_text printable src).
+  nth_error (session printable keep gkeep (before ++ src :: after)) (length before) = Some (compile_text printable src).
 Proof.
   rewrite counters_per_call, nth_error_app2; rewrite map_length; [|lia]. rewrite Nat.sub_diag. reflexivity.
 Qed.
@@ -244,8 +249,8 @@ Definition no_unicode : N -> bool := fun _ => false.
 Theorem set_order_refuted :
   exists (ord1 ord2 : list str -> list str) (s : str) (t1 t2 : str),
     (forall l, Permutation (ord1 l) l) /\ (forall l, Permutation (ord2 l) l)
-    /\ fst (compile_text_g no_unicode ord1 (0, 0) s) = CText t1
-    /\ fst (compile_text_g no_unicode ord2 (0, 0) s) = CText t2
+    /\ fst (compile_text_g no_unicode ord1 gkeep (0, 0) s) = CText t1
+    /\ fst (compile_text_g no_unicode ord2 gkeep (0, 0) s) = CText t2
     /\ t1 <> t2.
 Proof.
   exists keep, (@rev str), (d "p(X) :- q(Y, Z)."). do 2 eexists.
@@ -254,13 +259,28 @@ Proof.
   split; [vm_compute; reflexivity|]. split; [vm_compute; reflexivity|]. discriminate.
 Qed.
 
+(* the same for the predicate dictionary: if its iteration order were not the insertion order (a set
+   of keys, a dict of a Python before 3.7) two orders would give two different texts *)
+Theorem group_order_refuted :
+  exists (g1 g2 : list (key * list clause) -> list (key * list clause)) (s : str) (t1 t2 : str),
+    (forall l, Permutation (g1 l) l) /\ (forall l, Permutation (g2 l) l)
+    /\ fst (compile_text_g no_unicode keep g1 (0, 0) s) = CText t1
+    /\ fst (compile_text_g no_unicode keep g2 (0, 0) s) = CText t2
+    /\ t1 <> t2.
+Proof.
+  exists gkeep, (@rev (key * list clause)), (d "p(a). q(b)."). do 2 eexists.
+  split; [intros l; apply Permutation_refl|].
+  split; [intros l; apply Permutation_sym, Permutation_rev|].
+  split; [vm_compute; reflexivity|]. split; [vm_compute; reflexivity|]. discriminate.
+Qed.
+
 (* counters that survive a call: the second compilation of the same text differs from the first,
    (a) through the anonymous-variable counter alone, (b) through the label counter alone *)
 Theorem shared_counters_refuted :
-  (exists s t1 t2, session_shared no_unicode keep (0, 0) [s; s] = [CText t1; CText t2] /\ t1 <> t2
-                   /\ session no_unicode keep [s; s] = [CText t1; CText t1])
-  /\ (exists s t1 t2, session_shared no_unicode keep (0, 0) [s; s] = [CText t1; CText t2] /\ t1 <> t2
-                   /\ session no_unicode keep [s; s] = [CText t1; CText t1]).
+  (exists s t1 t2, session_shared no_unicode keep gkeep (0, 0) [s; s] = [CText t1; CText t2] /\ t1 <> t2
+                   /\ session no_unicode keep gkeep [s; s] = [CText t1; CText t1])
+  /\ (exists s t1 t2, session_shared no_unicode keep gkeep (0, 0) [s; s] = [CText t1; CText t2] /\ t1 <> t2
+                   /\ session no_unicode keep gkeep [s; s] = [CText t1; CText t1]).
 Proof.
   split.
   - exists (d "p(_)."). do 2 eexists. split; [vm_compute; reflexivity|]. split; [discriminate|vm_compute; reflexivity].
